@@ -138,7 +138,7 @@ func hostcall(self *VM, function string, span errors.Span, args []*value.Value) 
 		if err := self.Executor.RegisterTrigger(callback, triggerFunc, span, remainingArgs); err != nil {
 			return nil, value.NewVMFatalException(err.Error(), value.Vm_HostErrorKind, span)
 		}
-		return nil, nil
+		return value.NewValueNull(), nil
 	default:
 		panic("Invalid hostcall: " + function)
 	}
